@@ -15,71 +15,9 @@ mod playback {
     include!("/verif/.work/playback/emitter.rs");
 }
 
-/// Contract stub for `<f64 as FromStr>::from_str` (same as in the C08 harnesses): accepts exactly
-/// the std-documented grammar.
-fn f64_class(b: &[u8]) -> u8 {
-    let n = b.len();
-    let mut i = 0;
-    let mut neg = false;
-    if i < n && (b[i] == b'+' || b[i] == b'-') {
-        neg = b[i] == b'-';
-        i += 1;
-    }
-    let t = &b[i..];
-    if t.eq_ignore_ascii_case(b"inf") || t.eq_ignore_ascii_case(b"infinity") {
-        return if neg { 3 } else { 2 };
-    }
-    if t.eq_ignore_ascii_case(b"nan") {
-        return 4;
-    }
-    let mut digits = 0;
-    while i < n && b[i].is_ascii_digit() {
-        i += 1;
-        digits += 1;
-    }
-    if i < n && b[i] == b'.' {
-        i += 1;
-        while i < n && b[i].is_ascii_digit() {
-            i += 1;
-            digits += 1;
-        }
-    }
-    if digits == 0 {
-        return 0;
-    }
-    if i < n && (b[i] == b'e' || b[i] == b'E') {
-        i += 1;
-        if i < n && (b[i] == b'+' || b[i] == b'-') {
-            i += 1;
-        }
-        let mut ed = 0;
-        while i < n && b[i].is_ascii_digit() {
-            i += 1;
-            ed += 1;
-        }
-        if ed == 0 {
-            return 0;
-        }
-    }
-    if i == n {
-        1
-    } else {
-        0
-    }
-}
-pub fn f64_from_str_stub(s: &str) -> Result<f64, std::num::ParseFloatError> {
-    match f64_class(s.as_bytes()) {
-        1 => {
-            let v: f64 = kani::any();
-            kani::assume(!v.is_nan());
-            Ok(v)
-        }
-        2 => Ok(f64::INFINITY),
-        3 => Ok(f64::NEG_INFINITY),
-        4 => Ok(f64::NAN),
-        _ => Err("".parse::<f32>().unwrap_err()),
-    }
-}
+#[path = "/verif/kani/common/f64_stub.rs"]
+pub mod f64_stub;
+use f64_stub::f64_from_str_stub;
 
 /// The property's 20-symbol alphabet for strings: indicators, blanks, quotes, digits and the
 /// letters of type-like words.
@@ -128,6 +66,12 @@ pub fn c09_unquoted_strings_resolve_as_strings_4() {
 #[kani::stub(<f64 as std::str::FromStr>::from_str, f64_from_str_stub)]
 pub fn c09_unquoted_strings_resolve_as_strings_5() {
     plain_lemma::<5>();
+}
+
+/// `core::str::slice_error_fail` computes a truncated copy of the string and char ranges for its
+/// panic message before panicking; only the panic matters here.
+fn slice_error_fail_stub(_s: &str, _begin: usize, _end: usize) -> ! {
+    panic!("str slice index is not on a character boundary or out of range")
 }
 
 /// Fixed-capacity sink for `escape_str`.
@@ -272,16 +216,19 @@ fn escape_roundtrip(maxchars: usize) {
 
 #[kani::proof]
 #[kani::unwind(42)]
+#[kani::stub(core::str::slice_error_fail, slice_error_fail_stub)]
 pub fn c09_escape_str_roundtrip_1() {
     escape_roundtrip(1);
 }
 #[kani::proof]
 #[kani::unwind(42)]
+#[kani::stub(core::str::slice_error_fail, slice_error_fail_stub)]
 pub fn c09_escape_str_roundtrip_2() {
     escape_roundtrip(2);
 }
 #[kani::proof]
 #[kani::unwind(42)]
+#[kani::stub(core::str::slice_error_fail, slice_error_fail_stub)]
 pub fn c09_escape_str_roundtrip_3() {
     escape_roundtrip(3);
 }
